@@ -43,6 +43,17 @@ func LengthPrefixTypeSize(t LengthPrefixType) (int, error) {
 	}
 }
 
+// checkLengthPrefixTypeSupported returns an error if the serializer can't write/read
+// collection lengths with the given LengthPrefixType (only byte, uint16 and uint32 are supported).
+func checkLengthPrefixTypeSupported(t LengthPrefixType) error {
+	switch t {
+	case LengthPrefixTypeAsByte, LengthPrefixTypeAsUint16, LengthPrefixTypeAsUint32:
+		return nil
+	default:
+		return ierrors.Wrapf(ErrUnknownLengthPrefixType, "length prefix type %d is not supported by the serializer", t)
+	}
+}
+
 // ArrayRules defines rules around a to be deserialized array.
 // Min and Max at 0 define an unbounded array.
 type ArrayRules serializer.ArrayRules
